@@ -172,6 +172,17 @@ CHECKS["C16"] = {
     ],
 }
 
+CHECKS["C17"] = {
+    "harness": "c17",
+    "level": "exploration",
+    "floor": {"quick": 300, "thorough": 1000},
+    "timeout": {"quick": 1500, "thorough": 7200},
+    "assumptions": [
+        "labels are drawn from the ids present in the info plus -1 (ids absent from the info are an unchecked precondition of the API)",
+        "a -1 triangle may land in any range; partition mode uses few bones so that no bone-limit split renumbers partitions",
+    ],
+}
+
 for _pid, _floor in (("C18", 1000), ("C19", 1000), ("C20", 1000)):
     CHECKS[_pid] = {
         "harness": _pid.lower(),
